@@ -1993,3 +1993,171 @@ func (c *Ctx) lexLossless(rule string, pkgs ...string) (n int) {
 	}
 	return
 }
+
+// ---------------------------------------------------------------------------------------------
+// STORE-OR-ERR (C13): in the clause of the Nexus TRANSLATE parser that has read a key, every path
+// to the end of the clause either stores the (key, value) pair into the table or records an error.
+// A path doing neither (e.g. the branch taken when ';' follows the pair on the same line) silently
+// drops that entry, and the trees keep the number instead of the name.
+func (c *Ctx) translateStoreOrErr(rule string) int {
+	fi := c.Func("io/nexus", "Parser", "parseTranslationTable")
+	if fi == nil {
+		return 0
+	}
+	clause := "Nexus with a translate table gives the same tree (names)"
+	info := fi.Pkg.TypesInfo
+	// the table: the map-typed named result (or the map returned)
+	var table types.Object
+	if fi.Decl.Type.Results != nil {
+		for _, f := range fi.Decl.Type.Results.List {
+			for _, nm := range f.Names {
+				if o := info.Defs[nm]; o != nil {
+					if _, isMap := o.Type().Underlying().(*types.Map); isMap {
+						table = o
+					}
+				}
+			}
+		}
+	}
+	isStore := func(s ast.Stmt) bool {
+		as, ok := s.(*ast.AssignStmt)
+		if !ok {
+			return false
+		}
+		for _, l := range as.Lhs {
+			if ie, ok := unparen(l).(*ast.IndexExpr); ok {
+				if _, isMap := info.TypeOf(ie.X).Underlying().(*types.Map); isMap && (table == nil || identObj(info, ie.X) == table) {
+					return true
+				}
+			}
+		}
+		return false
+	}
+	isErr := func(s ast.Stmt) bool {
+		as, ok := s.(*ast.AssignStmt)
+		if !ok {
+			return false
+		}
+		for i, l := range as.Lhs {
+			if t := info.TypeOf(l); t != nil && isErrorType(t) {
+				if i < len(as.Rhs) && isNilIdent(info, as.Rhs[i]) {
+					continue
+				}
+				return true
+			}
+		}
+		return false
+	}
+	// the clause that contains the store
+	var clauseBody []ast.Stmt
+	var clausePos token.Pos
+	ast.Inspect(fi.Decl.Body, func(m ast.Node) bool {
+		cc, ok := m.(*ast.CaseClause)
+		if !ok || clauseBody != nil {
+			return true
+		}
+		has := false
+		for _, s := range cc.Body {
+			ast.Inspect(s, func(q ast.Node) bool {
+				if st, ok := q.(ast.Stmt); ok && isStore(st) {
+					has = true
+				}
+				return true
+			})
+		}
+		if has {
+			// outermost clause only
+			clauseBody, clausePos = cc.Body, cc.Pos()
+			return false
+		}
+		return true
+	})
+	key := "io/nexus.Parser.parseTranslationTable/pair-stored"
+	if clauseBody == nil {
+		c.Violation(rule, key, fi.Decl.Pos(), "no store into the translation table found in the clause that reads a key: no entry is ever recorded").Clause = clause
+		return 1
+	}
+	// walk: returns the set of states {done (stored or erred) / notDone} with which control falls out of the list; bad records an exit in state notDone
+	var bad token.Pos
+	var walk func(list []ast.Stmt, done bool) (outDone bool, falls bool)
+	leave := func(pos token.Pos, done bool) {
+		if !done && !bad.IsValid() {
+			bad = pos
+		}
+	}
+	walk = func(list []ast.Stmt, done bool) (bool, bool) {
+		cur := done
+		for _, s := range list {
+			if isStore(s) || isErr(s) {
+				cur = true
+				continue
+			}
+			switch x := s.(type) {
+			case *ast.BlockStmt:
+				d, f := walk(x.List, cur)
+				if !f {
+					return d, false
+				}
+				cur = d
+			case *ast.IfStmt:
+				initDone := cur
+				if x.Init != nil && (isStore(x.Init) || isErr(x.Init)) {
+					initDone = true
+				}
+				d1, f1 := walk(x.Body.List, initDone)
+				d2, f2 := initDone, true
+				switch e := x.Else.(type) {
+				case *ast.BlockStmt:
+					d2, f2 = walk(e.List, initDone)
+				case *ast.IfStmt:
+					d2, f2 = walk([]ast.Stmt{e}, initDone)
+				}
+				switch {
+				case !f1 && !f2:
+					return true, false
+				case f1 && f2:
+					cur = d1 && d2
+				case f1:
+					cur = d1
+				default:
+					cur = d2
+				}
+			case *ast.SwitchStmt:
+				all, anyFalls, hasDefault := true, false, false
+				for _, cs := range x.Body.List {
+					cc := cs.(*ast.CaseClause)
+					if cc.List == nil {
+						hasDefault = true
+					}
+					d, f := walk(cc.Body, cur)
+					if f {
+						anyFalls = true
+						all = all && d
+					}
+				}
+				if !hasDefault {
+					anyFalls = true
+					all = all && cur
+				}
+				if !anyFalls {
+					return true, false
+				}
+				cur = all
+			case *ast.BranchStmt, *ast.ReturnStmt:
+				leave(x.Pos(), cur)
+				return cur, false
+			}
+		}
+		return cur, true
+	}
+	d, f := walk(clauseBody, false)
+	if f {
+		leave(clausePos, d)
+	}
+	if bad.IsValid() {
+		c.Violation(rule, key, bad, "a path through the clause that has read a key of the TRANSLATE table neither stores the (key, value) pair nor records an error: that entry is silently dropped (the tips keep their number as name)").Clause = clause
+	} else {
+		c.OK(rule, key, clausePos, "every path that has read a key stores the pair or records an error")
+	}
+	return 1
+}
